@@ -28,7 +28,14 @@ func ToMultiAlign(samIn io.Reader, out io.Writer, wrap int, trimstart int, trime
 
 	go groupSamRecords(samIn, cSH, cSR, cReadDone, cErr)
 
-	header := <-cSH
+	// the reader reports a stream it can't parse (e.g. an empty one) on the
+	// error channel instead of sending a header
+	var header biogosam.Header
+	select {
+	case header = <-cSH:
+	case err := <-cErr:
+		return err
+	}
 	refLen := header.Refs()[0].Len()
 
 	trimstart, trimend, trim, err := checkArgs(refLen, trimstart, trimend)
